@@ -1,0 +1,62 @@
+//go:build verif
+
+// Contracts for the verifier in /verif (comment-only file; contributes no declarations).
+package config
+
+//@ pure contextmanager.Get
+//@ pure ContextManager.GetClock
+
+//@ monitor TxnPoliciesAccessor.mutex
+//@   self a
+//@   protects currentVersion, policiesVersions, txnVersions
+//@   invariant[maps] a.policiesVersions != nil && a.txnVersions != nil
+//@   rely[maps-stay] a.policiesVersions == old(a.policiesVersions) && a.txnVersions == old(a.txnVersions)
+
+//@ ghost func accOK(a *TxnPoliciesAccessor) bool = a != nil && a.mutex != nil && a.policiesVersions != nil && a.txnVersions != nil && a.txnVersionsVacuum != nil && a.policiesVersionsVacuum != nil && a.txnVersionsVacuum.clock != nil && a.policiesVersionsVacuum.clock != nil && a.txnVersionsVacuum.entriesMutex != nil && a.policiesVersionsVacuum.entriesMutex != nil && a.txnVersionsVacuum != a.policiesVersionsVacuum
+
+// A transaction is pinned once: a known id keeps its version, a new id gets the current one.
+//@ func (*TxnPoliciesAccessor).getTxnPoliciesVersion
+//@   prop C11
+//@   requires accOK(txnPoliciesAccessor)
+//@   modifies mapof(txnPoliciesAccessor.txnVersions), txnPoliciesAccessor.txnVersionsVacuum.entries, txnPoliciesAccessor.txnVersionsVacuum.active, now
+//@   ensures[pin-once]    seq: old(in(txnID, txnPoliciesAccessor.txnVersions)) ==> result == old(txnPoliciesAccessor.txnVersions[txnID]) && txnPoliciesAccessor.txnVersions[txnID] == result && len(txnPoliciesAccessor.txnVersionsVacuum.entries) == old(len(txnPoliciesAccessor.txnVersionsVacuum.entries))
+//@   ensures[pin-current] seq: !old(in(txnID, txnPoliciesAccessor.txnVersions)) ==> result == old(txnPoliciesAccessor.currentVersion) && in(txnID, txnPoliciesAccessor.txnVersions) && txnPoliciesAccessor.txnVersions[txnID] == result
+//@   ensures[pin-retained-for-ttl] seq: !old(in(txnID, txnPoliciesAccessor.txnVersions)) ==> len(txnPoliciesAccessor.txnVersionsVacuum.entries) == old(len(txnPoliciesAccessor.txnVersionsVacuum.entries)) + 1 && txnPoliciesAccessor.txnVersionsVacuum.entries[old(len(txnPoliciesAccessor.txnVersionsVacuum.entries))].keyToVacuum == txnID && txnPoliciesAccessor.txnVersionsVacuum.entries[old(len(txnPoliciesAccessor.txnVersionsVacuum.entries))].vacuumAt >= old(now()) + txnPoliciesAccessor.txnVersionsVacuum.ttl
+//@   ensures[others-untouched] seq: forall(t, TxnID, t != txnID ==> (in(t, txnPoliciesAccessor.txnVersions) <==> old(in(t, txnPoliciesAccessor.txnVersions))) && txnPoliciesAccessor.txnVersions[t] == old(txnPoliciesAccessor.txnVersions[t]))
+//@   ensures[versions-untouched] seq: txnPoliciesAccessor.currentVersion == old(txnPoliciesAccessor.currentVersion)
+
+// A reload adds a version and never rewrites or removes an existing one; the superseded version is scheduled for
+// removal no earlier than its vacuum's TTL from now.
+//@ func (*TxnPoliciesAccessor).setNextVersion
+//@   prop C11
+//@   requires accOK(txnPoliciesAccessor)
+//@   modifies txnPoliciesAccessor.currentVersion, mapof(txnPoliciesAccessor.policiesVersions), txnPoliciesAccessor.policiesVersionsVacuum.entries, txnPoliciesAccessor.policiesVersionsVacuum.active, now
+//@   ensures[next]     seq: txnPoliciesAccessor.currentVersion == old(txnPoliciesAccessor.currentVersion) + 1 && result == old(txnPoliciesAccessor.currentVersion) && in(txnPoliciesAccessor.currentVersion, txnPoliciesAccessor.policiesVersions) && txnPoliciesAccessor.policiesVersions[txnPoliciesAccessor.currentVersion] == policiesData
+//@   ensures[add-only] seq: forall(v, PoliciesVersion, v != old(txnPoliciesAccessor.currentVersion) + 1 ==> (in(v, txnPoliciesAccessor.policiesVersions) <==> old(in(v, txnPoliciesAccessor.policiesVersions))) && txnPoliciesAccessor.policiesVersions[v] == old(txnPoliciesAccessor.policiesVersions[v]))
+//@   ensures[superseded-retained-for-ttl] seq: len(txnPoliciesAccessor.policiesVersionsVacuum.entries) == old(len(txnPoliciesAccessor.policiesVersionsVacuum.entries)) + 1 && txnPoliciesAccessor.policiesVersionsVacuum.entries[old(len(txnPoliciesAccessor.policiesVersionsVacuum.entries))].keyToVacuum == old(txnPoliciesAccessor.currentVersion) && txnPoliciesAccessor.policiesVersionsVacuum.entries[old(len(txnPoliciesAccessor.policiesVersionsVacuum.entries))].vacuumAt >= old(now()) + txnPoliciesAccessor.policiesVersionsVacuum.ttl
+
+// The response of a pinned transaction is processed with the version pinned at its request.
+//@ func (*TxnPoliciesAccessor).GetTxnPoliciesData
+//@   prop C11
+//@   requires accOK(txnPoliciesAccessor)
+//@   allocates PoliciesData
+//@   modifies mapof(txnPoliciesAccessor.txnVersions), txnPoliciesAccessor.txnVersionsVacuum.entries, txnPoliciesAccessor.txnVersionsVacuum.active, now
+//@   ensures[same-version] seq: old(in(txnID, txnPoliciesAccessor.txnVersions)) && old(in(txnPoliciesAccessor.txnVersions[txnID], txnPoliciesAccessor.policiesVersions)) ==> result == old(txnPoliciesAccessor.policiesVersions[txnPoliciesAccessor.txnVersions[txnID]])
+//@   ensures[new-txn-current] seq: !old(in(txnID, txnPoliciesAccessor.txnVersions)) && old(in(txnPoliciesAccessor.currentVersion, txnPoliciesAccessor.policiesVersions)) ==> result == old(txnPoliciesAccessor.policiesVersions[txnPoliciesAccessor.currentVersion]) && txnPoliciesAccessor.txnVersions[txnID] == old(txnPoliciesAccessor.currentVersion)
+
+// Both vacuums are built over the accessor's own maps with the retention period; a version is kept at least as long as a pin.
+//@ func NewTxnPoliciesAccessor
+//@   prop C11
+//@   allocates map, MapVacuum, cell
+//@   modifies now
+//@   ensures[retention] result.policiesVersionsVacuum != nil && result.txnVersionsVacuum != nil && result.policiesVersionsVacuum.ttl >= result.txnVersionsVacuum.ttl && result.txnVersionsVacuum.ttl == staleVersionTTL && result.policiesVersionsVacuum.ttl == staleVersionTTL
+//@   ensures[own-maps]  result.policiesVersionsVacuum.mapToVacuum == result.policiesVersions && result.txnVersionsVacuum.mapToVacuum == result.txnVersions && result.policiesVersionsVacuum.mapMutex == result.mutex && result.txnVersionsVacuum.mapMutex == result.mutex
+//@   ensures[initial]   result.currentVersion == 1 && in(1, result.policiesVersions) && result.policiesVersions[1] == policiesData && forall(t, TxnID, !in(t, result.txnVersions))
+
+// Retention arithmetic (lifting): a transaction pinned at tp to a version that is superseded at ts >= tp can still be
+// answered at any time t <= tp + ttlTxn; the version is removable only after ts + ttlVer.
+//@ lemma[retention]
+//@   prop C11
+//@   vars tp int64, ts int64, t int64, ttlTxn int64, ttlVer int64
+//@   requires tp <= ts && ttlVer >= ttlTxn && t <= tp + ttlTxn
+//@   ensures[version-still-there] t <= ts + ttlVer
